@@ -171,7 +171,7 @@ fn valid_rtcp(rng: &mut Rng) -> Vec<u8> {
     let ps: Vec<RtcpPacket> = (0..rng.range(1, 4)).map(|_| gen_rtcp_packet(rng)).collect();
     let ps2 = ps.clone();
     // a panic here is reported by the `rtcpmarshal` stream; the generator itself must survive it
-    let mut v = match crate::catch(move || marshal_rtcp_packets(&ps2).ok()).unwrap_or(None) { Some(v) => v, None => marshal_rtcp_packets(&[RtcpPacket::PictureLossIndication(PictureLossIndication { sender_ssrc: 1, media_ssrc: 2 })]).unwrap() };
+    let mut v = match super::catch_ack(move || marshal_rtcp_packets(&ps2).ok()).unwrap_or(None) { Some(v) => v, None => marshal_rtcp_packets(&[RtcpPacket::PictureLossIndication(PictureLossIndication { sender_ssrc: 1, media_ssrc: 2 })]).unwrap() };
     if rng.chance(1, 5) && !v.is_empty() {
         // RTCP padding on the last packet: set P bit, append pad words
         let mut off = 0; let mut last = 0;
